@@ -42,16 +42,17 @@ func init() {
 var massiveMu sync.Mutex // the hook is process-global: massive cases run one at a time
 
 type massiveCase struct {
-	Kind   string   `json:"kind"`
-	Op     string   `json:"op"` // text json yaml dry walk mkdir verify
-	Doc    string   `json:"doc_hex"`
-	Text   string   `json:"doc_text,omitempty"`
-	Blocks []int    `json:"block_sizes,omitempty"` // lines per root block of the simple text output (well-formed documents)
-	Sched  int64    `json:"sched_seed"`
-	Procs  int      `json:"gomaxprocs"`
-	Exts   []string `json:"exts,omitempty"`
-	Fmt    Fmt4     `json:"fmt"`
-	Known  string   `json:"known_class,omitempty"`
+	Kind     string   `json:"kind"`
+	Op       string   `json:"op"` // text json yaml dry walk mkdir verify
+	Doc      string   `json:"doc_hex"`
+	Text     string   `json:"doc_text,omitempty"`
+	Blocks   []int    `json:"block_sizes,omitempty"` // lines per root block of the simple text output (well-formed documents)
+	Sched    int64    `json:"sched_seed"`
+	Procs    int      `json:"gomaxprocs"`
+	Exts     []string `json:"exts,omitempty"`
+	Fmt      Fmt4     `json:"fmt"`
+	Known    string   `json:"known_class,omitempty"`
+	ReadFail int      `json:"reader_fails_after,omitempty"` // >0: the reader fails after this many bytes (minus one)
 }
 
 // installSched installs a seeded perturbation at the hand-over points and returns the list of points reached.
@@ -111,11 +112,24 @@ func (b *lockedBuf) lateWrites() int {
 }
 
 type opResult struct {
-	lb    *lockedBuf
-	out   []byte
-	err   error
-	rows  []string // walk
-	snap  string   // mkdir
+	lb   *lockedBuf
+	out  []byte
+	err  error
+	rows []string // walk
+	snap string   // mkdir
+}
+
+var runOpReadFail int // set by runMassive for the duration of one case (massive cases run one at a time)
+
+func docReader(doc []byte) io.Reader {
+	if runOpReadFail > 0 {
+		k := runOpReadFail - 1
+		if k > len(doc) {
+			k = len(doc)
+		}
+		return &faultReader{data: append([]byte{}, doc[:k]...), fail: true, chunk: 11}
+	}
+	return bytes.NewReader(doc)
 }
 
 func runOp(op string, doc []byte, massive bool, ctx context.Context, f Fmt4, exts []string) opResult {
@@ -128,15 +142,15 @@ func runOp(op string, doc []byte, massive bool, ctx context.Context, f Fmt4, ext
 	res.lb = buf
 	switch op {
 	case "text":
-		res.err = gtree.OutputFromMarkdown(buf, bytes.NewReader(doc), append(opts, fmtOpts(f)...)...)
+		res.err = gtree.OutputFromMarkdown(buf, docReader(doc), append(opts, fmtOpts(f)...)...)
 	case "json", "yaml", "toml":
-		res.err = gtree.OutputFromMarkdown(buf, bytes.NewReader(doc), append(opts, encodeOpt(op))...)
+		res.err = gtree.OutputFromMarkdown(buf, docReader(doc), append(opts, encodeOpt(op))...)
 	case "dry":
-		res.err = gtree.OutputFromMarkdown(buf, bytes.NewReader(doc), append(opts, gtree.WithDryRun(), gtree.WithFileExtensions(exts))...)
+		res.err = gtree.OutputFromMarkdown(buf, docReader(doc), append(opts, gtree.WithDryRun(), gtree.WithFileExtensions(exts))...)
 	case "walk":
 		var mu sync.Mutex
 		var rows []string
-		res.err = gtree.WalkFromMarkdown(bytes.NewReader(doc), func(wn *gtree.WalkerNode) error {
+		res.err = gtree.WalkFromMarkdown(docReader(doc), func(wn *gtree.WalkerNode) error {
 			mu.Lock()
 			rows = append(rows, wn.Path()+"\x00"+wn.Row())
 			mu.Unlock()
@@ -249,6 +263,8 @@ func runMassive(m *Model, c massiveCase) []Diff {
 	if c.Procs > 0 {
 		defer runtime.GOMAXPROCS(runtime.GOMAXPROCS(c.Procs))
 	}
+	runOpReadFail = c.ReadFail
+	defer func() { runOpReadFail = 0 }()
 	simple := runOp(c.Op, doc, false, nil, c.Fmt, c.Exts)
 	// per-root block sizes of the reference (simple-mode) result: roots are the level-1 visits
 	var sizes []int
@@ -425,10 +441,30 @@ func runC10(ctx *Ctx) *Report {
 			cases = append(cases, massiveCase{Kind: "massive", Op: op, Doc: hx(doc), Text: "<40 roots>", Blocks: forestSizes(big), Sched: int64(7000 + s), Fmt: fmtDefault, Exts: []string{".go"}, Procs: []int{0, 1, 2, 16}[s%4]})
 		}
 	}
+	// roots whose rendering exceeds any internal buffer (> 4 KiB per root), many at once
+	var fat []*Tree
+	for i := 0; i < 24; i++ {
+		t := &Tree{Name: fmt.Sprintf("fat%d", i)}
+		for j := 0; j < 120; j++ {
+			t.Kids = append(t.Kids, &Tree{Name: fmt.Sprintf("child-%02d-%03d-%s", i, j, strings.Repeat("x", 30))})
+		}
+		fat = append(fat, t)
+	}
+	for s := 0; s < 4 || (ctx.Thorough && s < 30); s++ {
+		doc := spell(fat, plainSpelling)
+		for _, op := range []string{"text", "dry", "json"} {
+			cases = append(cases, massiveCase{Kind: "massive", Op: op, Doc: hx(doc), Text: "<24 roots of ~6 KiB>", Sched: int64(8000 + s), Fmt: fmtDefault, Procs: []int{0, 4, 16, 2}[s%4]})
+		}
+	}
 	// malformed stream: error iff error
 	small := forestsUpTo(3, []string{"a", "b"})
 	for fi, f := range small {
-		if len(f) < 2 {
+		doc0 := string(spell(f, plainSpelling))
+		for mi, pre := range []string{"  - early\n", "    * early\n", "\t- early\n"} {
+			k++
+			cases = append(cases, massiveCase{Kind: "massive", Op: ops[(k+mi)%4], Doc: hxs(pre + doc0), Text: docText([]byte(pre + doc0)), Sched: int64(k), Fmt: fmtDefault, Known: "M5-item-before-root"})
+		}
+		if len(f) < 2 && fi%2 == 0 {
 			continue
 		}
 		doc := string(spell(f, plainSpelling))
@@ -445,6 +481,19 @@ func runC10(ctx *Ctx) *Report {
 				d := strings.Join(repl, "\n") + "\n"
 				k++
 				cases = append(cases, massiveCase{Kind: "massive", Op: ops[k%4], Doc: hxs(d), Text: docText([]byte(d)), Sched: int64(k), Fmt: fmtDefault, Known: inj.class})
+			}
+		}
+	}
+	// a failing reader: error iff error
+	{
+		doc := spell(big[:12], plainSpelling)
+		for at := 1; at <= len(doc)+1; at += 7 {
+			for _, op := range []string{"text", "json", "walk", "dry"} {
+				k++
+				if !ctx.Thorough && k%3 != 0 {
+					continue
+				}
+				cases = append(cases, massiveCase{Kind: "massive", Op: op, Doc: hx(doc), Text: "<12 roots, failing reader>", Sched: int64(k), Fmt: fmtDefault, ReadFail: at, Known: "reader-failure"})
 			}
 		}
 	}
